@@ -167,7 +167,7 @@ func (a *AdditionalGUTI) GetAMFSetID() (aMFSetID uint16) {
 // AMFSetID Row, sBit, len = [5, 6], 8 , 10
 func (a *AdditionalGUTI) SetAMFSetID(aMFSetID uint16) {
 	a.Octet[5] = uint8((aMFSetID)>>2) & 255
-	a.Octet[6] = a.Octet[6]&GetBitMask(6, 6) + uint8(aMFSetID&3)<<6
+	a.Octet[6] = a.Octet[6]&GetBitMask(6, 0) + uint8(aMFSetID&3)<<6
 }
 
 // AdditionalGUTI 9.11.3.4
